@@ -257,6 +257,25 @@ struct RRTstarX : og::RRTstar
         }
         return out;
     }
+    // tree edges that the (unrecorded) validator rejects in BOTH directions: "edges answered valid"
+    std::string invalidEdges(const ob::DiscreteMotionValidator &mv)
+    {
+        std::vector<Motion *> ms;
+        nn_->list(ms);
+        size_t bad = 0, first = 0, edges = 0;
+        for (size_t i = 0; i < ms.size(); ++i)
+            if (ms[i]->parent)
+            {
+                ++edges;
+                if (!mv.checkMotion(ms[i]->parent->state, ms[i]->state) && !mv.checkMotion(ms[i]->state, ms[i]->parent->state))
+                {
+                    if (!bad)
+                        first = i;
+                    ++bad;
+                }
+            }
+        return "edges=" + std::to_string(edges) + " invalid=" + std::to_string(bad) + " first=" + std::to_string(first);
+    }
     unsigned iters() const { return iterations_; }
     double maxDist() const { return maxDistance_; }
     double krrt() const { return k_rrt_; }
@@ -299,7 +318,8 @@ static bool doRun(const std::vector<std::string> &t)
     });
     auto si = std::make_shared<ob::SpaceInformation>(space);
     si->setStateValidityChecker(std::make_shared<Checker>(si, envBoxes((unsigned)*env, gDim)));
-    si->setMotionValidator(std::make_shared<RecMV>(si));
+    auto recmv = std::make_shared<RecMV>(si);
+    si->setMotionValidator(recmv);
     si->setup();
     ob::OptimizationObjectivePtr obj;
     if (kind == "len")
@@ -389,6 +409,7 @@ static bool doRun(const std::vector<std::string> &t)
                       << " ph=" << ph << " true=" << vp::bits(tc.value()) << "\n";
         }
         std::cout << "S tree\nR " << planner->tree() << "\n";
+        std::cout << "I " << planner->invalidEdges(recmv->inner) << "\n";
         std::cout << "I solve=" << k << " status=" << st.asString() << " calls=" << calls << " passes=" << digests.size() << "\n";
     }
     return true;
